@@ -3,6 +3,8 @@
 import json, subprocess
 TECH = "contract-based deductive verification: VCs generated from the real Go functions (go/ast+go/types) against contracts in guarded comment files, discharged by z3 4.8.12 / z3 5.1.0 / cvc5 1.0.3"
 CLAIMED = {
+ "C04": ("proof", "cache.LRUCache: Get/Peek/Exist/Set/SetIfAbsent/Delete/Clear/SetCapacity/Length/Size/Capacity/Evictions/Stats and the private updateInPlace/addNew/checkCapacity are proved against an abstract recency-ordered set (container/list ranked-set model): table/list bijection, size == sum of member sizes (SUM with finite-sum lemmas), size <= capacity at every unlock, eviction takes strictly the least recently used members first and nothing when it fits, Get/Set refresh recency, Peek/Exist change nothing; all fields accessed only under the mutex", "4/C04",
+         "trusted: container/list ranked-set extern model, finite-sum and finite-cardinality lemmas (mathematical, not machine checked), Value.Size() in [0,2^62), counters below 2^62 (assumed at lock acquisition), capacity >= 0. Not decided yet: Keys/Items order, the *AndGetRemoved variants, cache/tiny.LRUCache and the sharded wrappers (not under contract yet)."),
  "C06": ("proof", "every obligation of HardNode.Generate, MonoNode.Generate, NewNode, NewMonoNode, UnixNanoID/UnixNanoNoLockID.GenIDByTS, figureShift, IDFields and the lemmas compose_mono / fields_of_compose is discharged for all inputs, all clock readings and all six bit layouts (symbolic layout); lock discipline by lock-held obligations + monitor invariant", "4/C06",
          "trusted: time externs (wall clock arbitrary, monotonic clock monotone), sync.Mutex model, signed division by 1000000 axiomatised (monotone), timestamp ceiling as stated precondition, induction over calls as meta-argument. Not decided: termination of MonoNode's spin loop."),
  "C07": ("proof", "IDFields/IDParse split-recombine, id order lemma, TimeIDRange/TimeBetweenID exact interval (min<=id<=max <=> B<=ts<=E for every non-negative id) proved for all inputs and layouts", "4/C07",
@@ -26,7 +28,6 @@ NOT_YET = {
  "C01": "contracts for semap not written yet (needs the container/list ranked-set model); to be claimed when built",
  "C02": "contracts for keylock not written yet",
  "C03": "vendored B-tree is recursive copy-on-write heap code outside govc's subset; wrapper contracts + bounded stand-in not built yet",
- "C04": "LRU contracts (list/map bijection, SUM lemmas) not built yet",
  "C05": "TTL cache contracts not built yet",
  "C10": "bytex contracts (bytes.Buffer extern model) not built yet",
  "C11": "tex.Buffer contracts not built yet",
